@@ -232,6 +232,11 @@ func (d *Decoder) decodeNALUs(pkt *rtp.Packet) ([][]byte, error) {
 		nalus = [][]byte{pkt.Payload}
 	}
 
+	// a fragmented NALU that contains start codes only
+	if len(nalus) == 0 {
+		return nil, fmt.Errorf("packet doesn't contain any NALU")
+	}
+
 	nalus, err := d.removeAnnexB(nalus)
 	if err != nil {
 		return nil, err
